@@ -771,6 +771,19 @@ TRIAGE[("C14", "R11", Q + "binary.__call__",
     "replayed": "real code: q = binary(use_01=True, alpha=1); "
                 "q([-0.7, 0.3, 0, 1.5]) -> [0, 1, 1, 1]; q of that -> "
                 "[1, 1, 1, 1]"}
+TRIAGE[("C09", "R6", Q + "quantized_linear.get_config",
+        "config-describes-construction-time")] = {
+    "status": "fixed", "commit": "8934ec1",
+    "what_fails": "quantized_linear documents alpha as a modifiable "
+                  "attribute, but a constant (or None) alpha assigned after "
+                  "construction was ignored by __call__ (the scale was "
+                  "computed once in __init__) while get_config() / str() "
+                  "reported the new value: the quantizer rebuilt from the "
+                  "config computed another function than the live object",
+    "replayed": "real code before the fix: q = quantized_linear(4,1,"
+                "symmetric=0); q.alpha = 2.0; q([0.3,1.1,-0.7,2.6]) -> "
+                "[0.25,1,-0.75,1.75], quantized_linear(4,1,symmetric=0,"
+                "alpha=2.0) -> [0.5,1,-0.5,2.5]"}
 _ADD = "qkeras/qtools/quantized_operators/multiplier_impl.py::Adder"
 for _k in (("max", "both-capped", "mixed-sign"), ("max", "no-cap", "mixed-sign"),
            ("max", "one-sided-cap", "mixed-sign"),
